@@ -308,14 +308,15 @@ def c18_custom(prop, tier, a):
 simple("C18", C18_LEVEL,
        "one indexable enumeration run on 5 builds of the library (rel = SSE2 baseline, ssse3, avx512bw+vl, dev = "
        "ADA_DEVELOPMENT_CHECKS, amalg = amalgamate.py output of the working tree): (a) the C01 E-prod slot menus with hosts/paths "
-       "of 1,15,16,17,31,32,33,48 bytes; (b) E-byte sweeps: 23 delimiter / tab / newline / forbidden-host / upper-case / non-ASCII "
+       "of 1,15,16,17,31,32,33,48 bytes added (thorough: pad/userinfo/port/fragment menus cut to 2/5/6/4 entries to fit 5 builds "
+       "in the budget); (b) E-byte sweeps: 23 delimiter / tab / newline / forbidden-host / upper-case / non-ASCII "
        "bytes at every offset of runs of every length 1..70 in 30 parse and setter templates (host, path, query, fragment, "
        "userinfo, opaque path, relative with base), every ASCII byte and UTF-8 lead/continuation byte at block-edge offsets, "
-       "bracket-skip sweeps re-entering the kernels at location > 0; (c) all strings <= 9 over {0,1,2,5,9,.} as http hosts, "
+       "bracket-skip sweeps re-entering the kernels at location > 0; (c) all strings <= 8 (quick) / 9 (thorough) over {0,1,2,5,9,.} as http hosts, "
        "<= 7/8 through set_host/set_hostname, dotted shapes from a digit-class segment menu (3, 4, 5 segments, 0-2 trailing dots) "
        "in 4 contexts, single-byte substitutions in 7 shapes; (d) all strings <= 8 over {0,1,f,:,.} in brackets (special and "
        "non-special, parse and setters), all ':'-joined sequences of <= 9 pieces; (e) setter histories of depth 2 over the shared "
-       "menu on the 28 shared initial URLs, both URL types; (f) IDNA strings <= 3/4 over 12 code points, url_search_params "
+       "menu on the shared initial URLs, both URL types; (f) IDNA strings <= 3/4 over 12 code points, url_search_params "
        "histories of depth <= 2, 23 URLPattern constructions x 2 x 18 inputs. A case's observation = success flags / return "
        "values, href, every getter, host_type, scheme type, presence flags, validate(), offsets, can_parse, for both URL types; "
        "non-trivial = something succeeded; distinct = distinct observation hashes in the reference build",
